@@ -415,7 +415,14 @@ func (e *Engine) strConst(s string) Term {
 	if t, ok := e.strConsts[s]; ok {
 		return t
 	}
-	t := e.declare(fmt.Sprintf("str!%d", len(e.strConsts)), e.rs())
+	var t Term
+	if s == "" {
+		// the empty string is the zero value of the string type: handle 0
+		t = e.ridLit(0)
+	} else {
+		t = e.declare(fmt.Sprintf("str!%d", len(e.strConsts)), e.rs())
+		e.assumps = append(e.assumps, Assump{T: Not(Eq(t, e.ridLit(0)))})
+	}
 	e.strConsts[s] = t
 	e.strOrder = append(e.strOrder, s)
 	sl := e.declareFun("strlen", []Sort{e.rs()}, e.ar.idxSort())
